@@ -11,7 +11,15 @@ ROUTER_RULE = ("each evaluation is one simulated world: 1-2 editor sessions on t
                "executing a generated history of add/move/resize/delete shape, move end point, add/delete connector, parameter changes and processTransaction ops, "
                "with cancel/deadline/clock faults attached to transactions, transactions on or off, router tunables and heap placement varied per run, optional noise session; "
                "oracles run after every completed transaction; non-trivial = a reach probe fired; distinct = distinct event-log hash")
+MIX_RULE = ("each evaluation is one simulated world of 1-5 sessions drawn from every engine (router editors in all modes incl. immediate mode, libvpsc/libavoid solvers, "
+            "overlap removal, layouts, HOLA graphs) sharing heap, clock, file layer and globals, interleaved at every callback; non-trivial = a reach probe fired; distinct = distinct event-log hash")
 PROPS = {
+    "C15": dict(build="san", runs_quick=4000, budget_quick=50, runs_thorough=150000, budget_thorough=1200, rule=MIX_RULE, timeout_quick=60,
+                assumptions=["ASan+UBSan (recoverable) on all five libraries and the harness, LeakSanitizer check at the end of every run, library assertions as exceptions, watchdog",
+                             "allocation failure is not injected (the property is about valid use)",
+                             "only direct leaks are classified; leaks in a run in which the library threw an assertion are attributed to that assertion"]),
+    "C20": dict(build="plain", runs_quick=6000, budget_quick=50, runs_thorough=200000, budget_thorough=1200, rule=MIX_RULE + "; every evaluation executes the subject session three times: alone (lifo heap, constant fill), in the busy world (random placement, junk fill), and in the busy world with another heap seed",
+                assumptions=["routes and solver positions compared bit-exact, layout positions to 1e-9", "frame clauses (translation, symmetries, permutation) are input relations executed as twin sessions"]),
     "C03": dict(build="plain", runs_quick=60000, budget_quick=40, runs_thorough=400000, budget_thorough=900, rule=ROUTER_RULE,
                 assumptions=["validity judged against the shapes themselves (not the buffered routing polygons), tolerance 1e-7 in clip parameter",
                              "interior clause only when a path exists among obstacles inflated by 1 unit",
